@@ -194,6 +194,29 @@ def run_witness(ctx, prop, finding, focus=None):
     from ..impl import schedeng
     focus = focus or {prop}
     w = finding.get("witness")
+    if w and "cycle" in w and "workload" in w:
+        # a periodic schedule: prefix, then the cycle again and again; it is a livelock if every event stays
+        # possible, the observable state after each turn is the same, and some job is not final
+        world = schedeng.World(w["workload"])
+        try:
+            pending, waited, seen, ok = list(range(len(w["workload"]["jobs"]))), False, [], True
+            for ev in w["prefix"] + w["cycle"] * 6:
+                if ev[0] != "submit" and ev not in world.choices(pending, waited):
+                    ok = False
+                    break
+                world.apply(ev)
+                if ev[0] == "submit":
+                    pending.pop(0)
+                seen.append(world.observe())
+            n, c = len(w["prefix"]), len(w["cycle"])
+            if ok and all(seen[n + c * k - 1] == seen[n - 1] for k in range(1, 7)) and "pending" in seen[-1]["futures"]:
+                ctx.monitor_fail("livelock-aborted-starts",
+                                 f"fair periodic schedule under which jobs {[i for i, f in enumerate(seen[-1]['futures']) if f == 'pending']} are never launched "
+                                 f"(state after each of 6 turns identical: {seen[-1]['states']}, avail {seen[-1]['avail']}) [witness of {finding['id']}]",
+                                 {"workload": w["workload"], "prefix": w["prefix"], "cycle": w["cycle"]})
+        finally:
+            world.close()
+        return
     if not w or "events" not in w or "workload" not in w:
         return
     ev, obs, tr, q = schedeng.run_replay_complete(w["workload"], w["events"])
